@@ -793,6 +793,7 @@ theorem addItem_g (R : Rules) (K : Nat → Kind) (n : Nat) (σ : State) (f s t :
 theorem step_g (R : Rules) (K : Nat → Kind) (n : Nat) (σ : State) (op : Op) :
     (step R K n σ op).g = op.facts.foldl (fun g r => addFact R n g r) σ.g := by
   cases op with
+  | churn => rfl
   | set1 f s t => simp only [step, Op.facts, List.foldl_cons, List.foldl_nil]; rw [addCore_g]
   | add f s t => simp only [step, Op.facts, List.foldl_cons, List.foldl_nil]; rw [addItem_g]
   | assign f s xs =>
@@ -815,6 +816,7 @@ theorem runOps_g (R : Rules) (K : Nat → Kind) (n : Nat) (ops : List Op) :
 theorem step_clob_false (R : Rules) (K : Nat → Kind) (n : Nat) (σ : State) (op : Op)
     (h : (step R K n σ op).clob = false) : σ.clob = false := by
   cases op with
+  | churn => exact h
   | set1 f s t => simpa [step, addCore_clob] using h
   | add f s t => simpa [step, addItem_clob] using h
   | assign f s xs =>
@@ -835,6 +837,7 @@ theorem step_agree (R : Rules) (K : Nat → Kind) (n : Nat) (σ : State) (op : O
     (hwk : op.wellKinded K = true) (hc : (step R K (n + 1) σ op).clob = false)
     (h : FieldsAgree K none σ) : FieldsAgree K none (step R K (n + 1) σ op) := by
   cases op with
+  | churn => exact h
   | set1 f s t =>
     simp only [Op.wellKinded, beq_iff_eq] at hwk
     simp only [step]
@@ -1034,7 +1037,7 @@ theorem C15_fields_closure (S : Schema) (W : World) (hW : W.WF) (ops : List Op) 
 single), 1 `member_of` (Person, MemberOf, list), 2 `members` (Company, Member, set), 3 `sub_organization_of`
 (Company, transitive, list); WorksFor ⊂ MemberOf, Member ↔ MemberOf; objects 0 Person, 1 2 3 Company. -/
 def exSchema : Schema :=
-  { fields := [⟨0, 2, .single⟩, ⟨0, 1, .list⟩, ⟨1, 0, .set⟩, ⟨1, 3, .list⟩],
+  { fields := [⟨0, 2, .single, []⟩, ⟨0, 1, .list, []⟩, ⟨1, 0, .set, []⟩, ⟨1, 3, .list, []⟩],
     supers := [(2, [1])], inverse := [(0, 1), (1, 0), (2, 0)], transProps := [3] }
 def exWorld : World := { cls := [0, 1, 1, 1], rt := [none, none, none, none] }
 def exOps : List Op := [.set1 0 0 1, .add 3 2 3, .add 3 1 2]
